@@ -69,6 +69,35 @@ def option_changes(v):
             ('hard', [('upd', None, not h, None, None)]), ('hard-and-back', [('upd', None, not h, None, None), ('upd', None, h, None, None)])]
 
 
+def switches(m):
+    sw = [('sw', 'train_net_only', True), ('sw', 'train_nas_only', True), ('sw', 'train_net_and_nas', True)]
+    if m == 'PIT':
+        sw += [('sw', n, b) for n in ('train_features', 'train_rf', 'train_dilation') for b in (False, True)]
+        sw += [('sw', 'train_rf', False), ('sw', 'train_dilation', False)]
+    if m == 'SN':
+        sw += [('sw', 'train_selection', False), ('sw', 'train_selection', True)]
+    return sw
+
+
+def sprinkle(rng, m, ops):
+    """trainability switches at random points (also right before the checkpoint) and, in a third of the histories, architectural
+    parameters moved far enough to prune masks / change the arg-max; PIT: both time-axis switches off in a quarter of them"""
+    out = list(ops)
+    sw = switches(m)
+    if rng.random() < 0.35:
+        out.insert(rng.randint(0, len(out)), ('perturb', rng.randint(0, 10 ** 6)))
+    for _ in range(rng.choice([0, 0, 1, 1, 2, 3])):
+        out.insert(rng.randint(0, len(out)), rng.choice(sw))
+    r = rng.random()
+    if r < 0.3:
+        out.append(rng.choice(sw))                      # right before the checkpoint
+    elif r < 0.55 and m == 'PIT':
+        out += [('sw', 'train_rf', False), ('sw', 'train_dilation', False)] if rng.random() < 0.5 else [('sw', 'train_net_only', True)]
+    elif r < 0.55:
+        out.append(('sw', 'train_net_only', True))
+    return out
+
+
 def gen_cases(ctx):
     rng = ctx.rng
     V = variants(ctx.quick)
@@ -103,6 +132,7 @@ def gen_cases(ctx):
                 ops += c[1]
             if fm == 'eval' or rng.random() < 0.3:
                 ops.append((fm,))
+            ops = sprinkle(rng, v['method'], ops)
             cases.append({'cfg': dict(v, opts=dict(v['opts'], seed_training=st), seed=rng.randint(0, 3)), 'ops': ops, 'kind': '%s:%s:steps%d:%s' % (v['method'], c[0], n, fm), 'vi': vi})
     # random histories
     nrand = 30 if ctx.quick else 300
@@ -121,6 +151,7 @@ def gen_cases(ctx):
                 ops.append(rng.choice([('train',), ('eval',)]))
             else:
                 ops += rng.choice(chs)[1]
+        ops = sprinkle(rng, v['method'], ops)
         cases.append({'cfg': dict(v, opts=dict(v['opts'], seed_training=rng.random() < 0.6), seed=rng.randint(0, 3)), 'ops': ops, 'kind': '%s:random' % v['method'], 'vi': vi})
     return cases
 
@@ -157,6 +188,8 @@ def op_literal(op):
         return 'OEval'
     if k == 'disc':
         return 'OSetDisc %s' % coq(op[1])
+    if k == 'sw':
+        return 'OTrainSwitch %s %s' % (coq(Nat(op[1])), coq(op[2]))
     if k == 'upd':
         return 'OUpdate %s %s %s %s' % tuple('None' if a is None else '(Some %s)' % coq(a) for a in op[1:5])
     raise ValueError(op)
@@ -232,7 +265,7 @@ def run(ctx):
     ctx.extra['impl_wall_s'] = round(time.time() - t0, 1)
     fails = []
     for case, res in zip(cases, results):
-        nontriv = any(o[0] in ('step', 'upd', 'disc') for o in case['ops'])
+        nontriv = any(o[0] in ('step', 'upd', 'disc', 'perturb', 'sw') for o in case['ops'])
         ctx.case((repr(case['cfg']), repr(case['ops'])), nontrivial=nontriv, kind=case['kind'].rsplit(':steps', 1)[0] if ':steps' in case['kind'] else case['kind'],
                  sample={'cfg': case['cfg'], 'ops': case['ops'], 'load': res.get('load'), 'equal(out,cost,summary,export)': res.get('eq'), 'changed_transient_options': res.get('changed')})
         for key, what in oracle(case, res):
